@@ -549,6 +549,9 @@ func (m *Dense) Stack(a, b Matrix) {
 	}
 
 	m.reuseAsNonZeroed(ar+br, ac)
+	// b is read after a has been copied: it must not share
+	// elements with the rows of the receiver written for a.
+	m.slice(0, ar, 0, ac).checkOverlapMatrix(b)
 
 	m.Copy(a)
 	w := m.slice(ar, ar+br, 0, bc)
@@ -567,6 +570,9 @@ func (m *Dense) Augment(a, b Matrix) {
 	}
 
 	m.reuseAsNonZeroed(ar, ac+bc)
+	// b is read after a has been copied: it must not share
+	// elements with the columns of the receiver written for a.
+	m.slice(0, ar, 0, ac).checkOverlapMatrix(b)
 
 	m.Copy(a)
 	w := m.slice(0, br, ac, ac+bc)
